@@ -22,13 +22,13 @@ META = {
                  "independent OCI overlay spec; refinement proof of the path tree to a finite map; refutation witnesses by "
                  "vm_compute; vm_compute correspondence against the real code on generated in-memory images; spec oracle on the domain D",
     "level_text": "PROVED (Coq, all sizes): (1) pathtree_refines_map: Insert/Get/GetChildren/Walk/Remove incl. its pruning, all trees and "
-                  "paths. (2) On the domain Dp (DomainP.v: directories, regular files below the size limit and plain whiteouts; relative "
+                  "paths. (2) On the domain Dp (DomainP.v: directories, regular files below the size limit, plain whiteouts and symbolic links kept inside the root, a link being an entry like a file, not followed; relative "
                   "names in any spelling; per layer distinct paths, explicit parent entries first, nothing below a whiteout target or file "
                   "of the same layer; no re-creation of a deleted/replaced directory that had older contents; any history), for any number "
                   "of layers and members: the implementation's lookup equals the OCI overlay's on kind, mode bits, size and introducing "
                   "layer in every view before the final pruning and in every view but the last after it under any requirer "
                   "(view_lookup_newest, spec_lookup_newest, view_eq_overlay_on_Dp_unpruned, view_eq_overlay_on_Dp), and in EVERY view "
-                  "with the default requirer when prune_safe_p holds (final_prune_only_whiteouts_on_Dp, view_eq_overlay_on_Dp_all_views); "
+                  "with the default requirer when prune_safe_p holds and the image has no links (final_prune_only_whiteouts_on_Dp, view_eq_overlay_on_Dp_all_views); "
                   "ReadDir of every existing path lists exactly the overlay's children (view_listing_eq_overlay_on_Dp_unpruned; with the "
                   "default requirer for FromV1Image itself in every view: view_listing_eq_overlay_on_Dp); a regular file of the overlay "
                   "is read back with the overlay's content before the final pruning (view_content_eq_overlay_on_Dp_unpruned_partial, "
